@@ -52,12 +52,13 @@ Fresh(n) == [k \in 1..n |-> nid + k - 1]   \* ids of n new item objects
 
 CallConstruct(i, ls) ==
   LET xs == [k \in 1..Len(ls) |-> [id |-> nid + k - 1, label |-> ls[k], good |-> TRUE]]
-      r  == AddSeq([ex |-> TRUE, items |-> <<>>, chans |-> <<>>], xs, <<>>, 1)
+      r  == AddSeq([ex |-> TRUE, items |-> <<>>, chans |-> <<>>, aux |-> 0], xs, <<>>, 1)
   IN [o |-> [op |-> "construct", i |-> i, xs |-> xs], w2 |-> [w EXCEPT ![i] = r.inst], res |-> OkRes(<<>>), used |-> Len(ls)]
 
 CallDecode(i, j) ==
   LET a == w[i]
-      d == [ex |-> TRUE, items |-> [k \in 1..Len(a.items) |-> Item(nid + k - 1, a.items[k].label)], chans |-> a.chans]
+      d == [ex |-> TRUE, items |-> [k \in 1..Len(a.items) |-> Item(nid + k - 1, a.items[k].label)], chans |-> a.chans,
+            aux |-> a.aux]
   IN [o |-> [op |-> "decode", i |-> i, j |-> j], w2 |-> [w EXCEPT ![j] = d], res |-> OkRes(<<>>), used |-> Len(a.items)]
 
 CallAdd(i, l, good, c) ==
@@ -109,6 +110,8 @@ LookupVal(a, what, key) ==
     [] what = "badkey" -> ErrRes("TypeError")
 CallLookup(i, what, key) ==
   [o |-> [op |-> "lookup", i |-> i, what |-> what, key |-> key], w2 |-> w, res |-> LookupVal(w[i], what, key), used |-> 0]
+CallAux(i) ==
+  [o |-> [op |-> "aux", i |-> i], w2 |-> [w EXCEPT ![i].aux = @ + 1], res |-> OkRes(<<>>), used |-> 0]
 CallEncode(i) ==
   LET a == w[i] IN
   [o |-> [op |-> "encode", i |-> i], w2 |-> w, used |-> 0,
@@ -142,8 +145,10 @@ Calls ==
                           \cup {CallLookup(i, "index", k) : i \in {k \in 1..NI : w[k].ex}, k \in 0..(MaxItems + 1)}
                           \cup {CallLookup(i, wh, l) : i \in {k \in 1..NI : w[k].ex}, wh \in {"label", "contains"}, l \in Labels \cup {9}} ELSE {})
   \cup {CallEncode(i) : i \in {k \in 1..NI : w[k].ex}}
+  \cup (IF Kind = "Data3D" THEN {CallAux(i) : i \in {k \in 1..NI : w[k].ex}} ELSE {})
 
-Fits(c) == \A i \in 1..NI : Len(c.w2[i].items) <= MaxItems /\ \A ch \in Range(c.w2[i].chans) : ch <= MaxChan
+Fits(c) == \A i \in 1..NI : /\ Len(c.w2[i].items) <= MaxItems /\ c.w2[i].aux <= 2
+                             /\ \A ch \in Range(c.w2[i].chans) : ch <= MaxChan
 
 RECURSIVE Before(_, _)
 Before(ww, i) == IF i = 1 THEN 0 ELSE Before(ww, i - 1) + Len(ww[i - 1].items)
@@ -166,6 +171,7 @@ Assign(i, p, cs)      == Ex(i) /\ HasAssign /\ ((Kind = "FPCal") <=> (cs # <<>>)
 BulkAdd(i, ls, cs)    == Ex(i) /\ HasBulk /\ Act(CallBulkAdd(i, ls, cs))
 Lookup(i, what, key)  == Ex(i) /\ HasLookup /\ Act(CallLookup(i, what, key))
 Encode(i)             == Ex(i) /\ Act(CallEncode(i))
+AuxEdit(i)            == Ex(i) /\ Kind = "Data3D" /\ Act(CallAux(i))
 
 AssignCs == {<<>>, <<0, 2>>, <<2, 2>>, <<5, 0>>}
 BulkCs   == {<<>>, <<0, 2>>, <<5, 5>>}
@@ -183,7 +189,7 @@ Next ==
         \/ \E wh \in {"len", "iter", "badkey"} : Lookup(i, wh, 0)
         \/ \E k \in 0..(MaxItems + 1) : Lookup(i, "index", k)
         \/ \E wh \in {"label", "contains"}, l \in Labels \cup {9} : Lookup(i, wh, l)
-        \/ Encode(i)
+        \/ Encode(i) \/ AuxEdit(i)
 Spec == Init /\ [][Next]_vars
 
 \* the model's own successors satisfy the contract, for every call in every state
